@@ -245,6 +245,11 @@ def f_core():
     add("value-names", cmd("p", [arg("pair", "p", "pair", valnames=2), arg("one", "o", "one", valnames=1), arg("tri", "t", "tri", valnames=2, num=(1, 3)),
                                  arg("f", "f", action="SetTrue")]), extra=["--pair=a"])
     add("value-names-positional", cmd("p", [arg("pt", valnames=2), arg("f", "f", action="SetTrue")]))
+    # actions and value counts chosen independently of each other
+    add("pos-append-single", cmd("p", [arg("p1", action="Append", num=(1, 1)), arg("f", "f", action="SetTrue")]))
+    add("pos-append-pair", cmd("p", [arg("p1", action="Append", num=(2, 2)), arg("f", "f", action="SetTrue")]))
+    add("opt-unbounded-default-action", cmd("p", [arg("o", "o", "opt", num=(1, None)), arg("q", "q", "qq", num=(0, None)), arg("f", "f", action="SetTrue")]))
+    add("opt-append-fixed", cmd("p", [arg("o", "o", "opt", action="Append", num=(2, 2)), arg("s", "s", "set", num=(2, 2)), arg("p1")]))
     add("delim-multibyte", cmd("p", [arg("o", "o", "opt", delim="\u3001", action="Append"), arg("p1", num=(0, None), delim="\U0001F600")]),
         extra=["a\u3001b", "--opt=x\u3001y", "c\U0001F600d", "\u3001"])
     add("missing-delim-dont-trailing", cmd("p", [arg("o", "o", "opt", num=(0, None), delim=",", missing=["a,b"]), arg("p1", num=(0, None), delim=",")],
